@@ -66,6 +66,7 @@ func RunPair(c CaseSpec, rep *monitor.Report, trace io.Writer) (int, error) {
 	}
 	k.PFault, k.PCrash, k.PStale, k.PRestart, k.PExternal, k.POddNode, k.PFleet, k.PDebugLog, k.PMidScan = 0, 0, 0, 0, 0, 0, 0, 0, 0
 	k.StatelessClock, k.SortedView = true, true
+	k.Ops = with(k.Ops, "refresh-fails", 0)
 	if k.MinGroups < 2 {
 		k.MinGroups = 2
 	}
